@@ -28,12 +28,33 @@ def widen(t, w):
     return t if w == 0 else (WIDE[w] + t + WIDE[w])
 
 
+# one input per allocation site / exit path of the C code (scratch buffers, TagData, kwargs, heading data ...):
+# these are ALL measured by the leak leg, in every string width, completed and aborted
+CATALOGUE = ["{{a|b=c}}", "[[a|b]]", "<b a=\"c\">x</b>", "&amp;&#x41;&#65;", "==h==\n", "{{{a|b}}}", "[http://a.b c]", "http://a.b/c,", "<!--c-->",
+             "{|\n|a||b\n|}", "''a'''b'''''", "<br/><ref name=x />", "*a\n;b:c\n----", "{{a|{{b|[[c|<i>d</i>]]}}}}", "<nowiki>{{a}}</nowiki>",
+             "<nowiki>a</b>c</nowiki>", "<pre>x</i>\ny</pre>", "<nowiki>a</nowiki", "<math>a</", "a mailto:x@y.z b", "&#00065;", "{{a", "[[a", "<b", "{{{a",
+             "&#x", "<b a='", "[http://", "{|\n|", "<!--", "'''''x'''''", "''a''", "'''b'''", "'''''a''b'''", "''a'''b", "<source lang=x>y</source>",
+             "<nowiki/>", "<li>a", "<br>", "</br>", "</br/>", "</xyz>", "<b a=b c='d' e=\"f\" g>x</b>", "<b a={{x}}>y</b>", "<b a=\"c>x</b>", "{{a|<br c=\"d>",
+             "{|a=b\n|+c\n!d!!e\n|-f=g\n|h||i\n|}", "{|\n|a=b|c\n|}", "{| a=\"b\n|c\n|}", ":a", "#a", ";a:b", "----", "[[a|b|c]]", "[[File:a.png|thumb|[[b]]]]",
+             "[//a.b c]", "[http://a.b]", "[[http://a.b c]]", "http://a.b.", "x http://a.b(c) d", "xhttp://a.b", "{{a|b|c=d|e={{f}}}}", "{{{{a}}}}", "{{{{{a}}}}}",
+             "{{a|\n==h==\n}}", "==a==b==\n", "=a=", "======a======", "== a\n", "&nbsp;&foo;&#xZ;&thetasym;", "<span style=\"a\" />", "<a<b>c</b>", "<b>c</a></b>",
+             "<b>''c</b>''", "{{a<b>}}</b>", "<ref>{{a}}</ref>", "<div\nclass=a\n>b</div\n>", "{{" * 20 + "a" + "}}" * 20, "{{foo|{{b}}{{c}}=d}}"]
+
+
+NCAT = len(CATALOGUE) * 6
+
+
 def items(tier, seed):
-    """deterministic list of work items: ('tok', text) | ('inj', text) | ('shim', seed, width)"""
+    """deterministic list of work items: ('tok', text) | ('inj', text) | ('shim', seed, width); the first
+    NCAT items are the catalogue"""
     import tokprops
     from props.c05 import FAMILIES
     rng = random.Random(seed * 7919 + 13)
     out = []
+    for t in CATALOGUE:
+        for w in range(3):
+            out.append(("tok", widen(t, w)))
+            out.append(("inj", widen(t, w)))
     tab = tokprops.table_inputs()
     step = 1 if tier == "thorough" else 3
     for i, t in enumerate(tab):
@@ -283,6 +304,7 @@ def main():
         its = items(tier, seed)
         if mode == "leak":
             its = [x for x in its if x[0] != "shim"]
+            its = its[:NCAT] + its[NCAT::(9 if tier == "quick" else 3)]
         r = run_item(st, mode, its[idx])
         print(json.dumps(r)[:2000])
         return 1 if (r.get("fails") or r.get("bad")) else 0
@@ -294,7 +316,7 @@ def main():
     its = items(tier, seed)
     if mode == "leak":
         its = [x for x in its if x[0] != "shim"]
-        its = its[::(9 if tier == "quick" else 3)]
+        its = its[:NCAT] + its[NCAT::(9 if tier == "quick" else 3)]
     stats = {"tok": 0, "inj": 0, "shim": 0, "aborted_calls": 0, "leak-tok": 0, "leak-inj": 0}
     shim_out = []
     for idx in range(shard, len(its), nshards):
